@@ -581,6 +581,17 @@ def reconfigured_objects(ctx: Ctx) -> None:
     h = Hedger(net(5), feats, criterion=EntropicRiskMeasure(1.0)); d_used = market(); outcome(h, d_used, 5)
     d_used.ul().cost = 5e-2; d_used.ul().sigma = 0.4; d_used.strike = 1.25
     cases.append(("underlier cost / sigma and derivative strike changed", h, d_used, Hedger(net(5), feats, criterion=EntropicRiskMeasure(1.0)), market(5e-2, 0.4, 1.25)))
+    # 5. fit() with an explicit hedge list, then computations with the DEFAULT hedge on another derivative
+    import copy as _copy
+    h = Hedger(net(6), feats, criterion=EntropicRiskMeasure(1.0))
+    d_fit = market()
+    quoted = EuropeanOption(d_fit.ul(), maturity=1.0, strike=1.1)
+    quoted.list(lambda dd: dd.ul().spot * 0.5 + 0.2, cost=2e-3)
+    torch.manual_seed(9)
+    h.fit(d_fit, hedge=[quoted], n_epochs=1, n_paths=8, verbose=False, validation=False)
+    twin = Hedger(net(6), feats, criterion=EntropicRiskMeasure(1.0))
+    twin.model.load_state_dict(_copy.deepcopy(h.model.state_dict()))
+    cases.append(("fit(hedge=[a listed option]) before, default hedge now", h, market(), twin, market()))
     for label, used, d1, fresh, d2 in cases:
         try:
             a, b = outcome(used, d1, 77), outcome(fresh, d2, 77)
